@@ -579,3 +579,47 @@ pub fn replay_rate(a: &Args) -> i32 {
                           "trace": path, "timed_runs": run_id}));
     0
 }
+
+/// C19 probe: refusals whose wait-nanos hint is not positive. Uses short periods so that many
+/// refusals are decided just before the next cell becomes available.
+pub fn rate_hint_probe(a: &Args) -> i32 {
+    let n = a.u64("n", 200_000);
+    let period_us = a.u64("period_us", 200);
+    let rt = tokio::runtime::Builder::new_multi_thread().worker_threads(6).enable_all().build().unwrap();
+    let quota = governor::Quota::with_period(std::time::Duration::from_micros(period_us)).unwrap();
+    let counting = Counting::default();
+    let layer = RateLimitLayer::new(quota, RateWaitMode::ReturnError);
+    let (zero, refused, admitted): (u64, u64, u64) = rt.block_on(async {
+        let mut hs = Vec::new();
+        for t in 0..6u64 {
+            let mut svc = layer.layer(counting.clone());
+            hs.push(tokio::spawn(async move {
+                let (mut z, mut r, mut ad) = (0u64, 0u64, 0u64);
+                for i in 0..n / 6 {
+                    match svc.call(request(t * 10_000_000 + i, 1 + (i % 2))).await {
+                        Ok(_) => ad += 1,
+                        Err(s) => {
+                            r += 1;
+                            let hint = s.headers().get(WAIT_NANOS_HEADER).and_then(|v| v.parse::<u128>().ok());
+                            if !matches!(hint, Some(h) if h > 0) {
+                                z += 1;
+                            }
+                        }
+                    }
+                    if i % 64 == 0 {
+                        tokio::task::yield_now().await;
+                    }
+                }
+                (z, r, ad)
+            }));
+        }
+        let mut tot = (0, 0, 0);
+        for h in hs {
+            let (z, r, ad) = h.await.unwrap();
+            tot = (tot.0 + z, tot.1 + r, tot.2 + ad);
+        }
+        tot
+    });
+    print_summary(&json!({"refused": refused, "admitted": admitted, "hint_not_positive": zero, "period_us": period_us}));
+    0
+}
